@@ -36,15 +36,15 @@ UnknownCases == SetToSeq({[c |-> "unknown", url |-> u] : u \in UnmanagedURLs})
 
 \* ------------------------------------------------------------------ fmt
 PubURLOf(T) == IF T \in Asymmetric THEN TypeURL(T, "public") ELSE ""
-FmtCase(T, p) == [c |-> "fmt", kt |-> T, kind |-> TemplateKindOf(T), p |-> p, wire |-> Wire(T, p),
+FmtCase(T, p) == [c |-> "fmt", kt |-> T, kind |-> TemplateKindOf(T), p |-> p, dp |-> Denoted(T, p), wire |-> Wire(T, p),
                   url |-> TypeURL(T, TemplateKindOf(T)), pubUrl |-> PubURLOf(T), class |-> PrimClass(T, TemplateKindOf(T)),
-                  ok |-> ParamsOK(T, p), acc |-> NewKeyAccepts(T, p), interop |-> Interop(T, p, Dense)]
+                  ok |-> ParamsOK(T, Denoted(T, p)), acc |-> NewKeyAccepts(T, Denoted(T, p)), interop |-> Interop(T, p, Dense)]
 FmtOf(T) == SetToSeq({FmtCase(T, p) : p \in {q \in FormatCases(T, Dense) : Dense \/ KeepQuick(T, q)}})
 TypeSeq == SetToSeq(Types)
 FmtCases == FlattenSeq([i \in 1..Len(TypeSeq) |-> FmtOf(TypeSeq[i])])
 
 Samples == [T \in KeyTypes |-> SampleParams(T)]
-PubFmtCases == SetToSeq({[c |-> "pubfmt", kt |-> T, kind |-> "public", p |-> Samples[T], wire |-> Wire(T, Samples[T]),
+PubFmtCases == SetToSeq({[c |-> "pubfmt", kt |-> T, kind |-> "public", p |-> Samples[T], dp |-> Denoted(T, Samples[T]), wire |-> Wire(T, Samples[T]),
                           url |-> TypeURL(T, "public"), pubUrl |-> "", class |-> PrimClass(T, "public"), interop |-> FALSE]
                          : T \in ManagedTypes \cap Asymmetric})
 
@@ -80,7 +80,9 @@ HistCases ==
   \o FlattenSeq([i \in 1..Cardinality(GKinds) |-> HistOf(SetToSeq(GKinds)[i], SeqsUpTo(GOpsAll, 4))])
 
 \* ------------------------------------------------------------------ cfgres / custom
-CfgResCases == SetToSeq({[c |-> "cfgres", class |-> x[1], kt |-> x[2], kind |-> x[3], p |-> Samples[x[2]]]
+\* (the ML-DSA prehash primitives exist only for keys with an id requirement)
+CfgSample(class, T) == IF class = "signprehash" /\ T = "MlDsa" THEN [Samples[T] EXCEPT !.variant = "TINK"] ELSE Samples[T]
+CfgResCases == SetToSeq({[c |-> "cfgres", class |-> x[1], kt |-> x[2], kind |-> x[3], p |-> CfgSample(x[1], x[2])]
                          : x \in {y \in ConfigClasses \X KeyTypes \X {"symmetric", "private", "public"} : y[3] \in Kinds(y[2])}})
 CustomCases == SetToSeq({[c |-> "custom", prefix |-> x] : x \in {"TINK", "RAW", "CRUNCHY"}})
 
